@@ -95,16 +95,32 @@ fn main() {
     let mut r = Rng::new(simcore::prng::run_seed(seed, "simmiri", 0));
     #[cfg(rcgen_verif)]
     rcgen::verif_hooks::set_hash_seed(r.next_u64());
-    let sw = Swarm { sans: true, wide_dn: true, exts: true, constraints: true, big: false, hashed_kid: false, auto_serial: false };
-    let key = Arc::new(rcgen::KeyPair::from_remote(Box::new(PureSigner { public: r.bytes(32), id: 1 })).unwrap());
-    let subject = Arc::new(rcgen::KeyPair::from_remote(Box::new(PureSigner { public: r.bytes(32), id: 2 })).unwrap());
+    let crypto = cfg!(feature = "fakering");
+    let sw = Swarm { sans: true, wide_dn: true, exts: true, constraints: true, big: false, hashed_kid: crypto, auto_serial: crypto };
+    // with the ring stub the shared keys are *local* keys (rcgen's own signing plumbing and
+    // digest-based key identifiers run); without it they sit behind the pure-Rust remote signer
+    #[cfg(feature = "fakering")]
+    let (key, subject) = (
+        Arc::new(rcgen::KeyPair::generate_for(&rcgen::PKCS_ED25519).expect("stub keygen")),
+        Arc::new(rcgen::KeyPair::generate_for(&rcgen::PKCS_ED25519).expect("stub keygen")),
+    );
+    #[cfg(not(feature = "fakering"))]
+    let (key, subject) = (
+        Arc::new(rcgen::KeyPair::from_remote(Box::new(PureSigner { public: r.bytes(32), id: 1 })).unwrap()),
+        Arc::new(rcgen::KeyPair::from_remote(Box::new(PureSigner { public: r.bytes(32), id: 2 })).unwrap()),
+    );
     let ca_recipe = gen_ca_cert(&mut r, &sw);
     let issuer = Arc::new(ca_recipe.build().self_signed(&key).expect("issuer"));
     let issuer_der = issuer.der().to_vec();
     let issuer_params = issuer.params().clone();
     // the same small set of operations for every thread, in thread-specific order
     let ops: Vec<Op> = vec![
-        Op::Issue(gen_cert(&mut r, &sw)),
+        Op::Issue({
+            let mut c = gen_cert(&mut r, &sw);
+            // make sure the authority key identifier (derived from the shared issuer) is written
+            c.use_aki = true;
+            c
+        }),
         Op::Csr({
             let mut c = gen_csr_cert(&mut r, &sw);
             c.serial = None;
@@ -119,7 +135,16 @@ fn main() {
             c.next_update = c.this_update + 86400;
             c
         }),
-        Op::SelfSign(gen_cert(&mut r, &sw)),
+        Op::SelfSign({
+            let mut c = gen_cert(&mut r, &sw);
+            // ... and a subject key identifier derived with another method
+            c.is_ca = recipe::IsCaR::Ca(None);
+            if crypto {
+                c.kid = recipe::KidR::Sha384;
+                c.serial = None;
+            }
+            c
+        }),
     ];
     let reference: Vec<(String, Vec<u8>, Vec<u8>, bool)> = ops.iter().map(|op| run_op(op, &key, &subject, &issuer)).collect();
     for (i, rf) in reference.iter().enumerate() {
@@ -138,7 +163,7 @@ fn main() {
             #[cfg(rcgen_verif)]
             rcgen::verif_hooks::set_hash_seed(hs);
             let _ = hs;
-            for k in 0..2 {
+            for k in 0..3 {
                 let i = (t + k * 3) % ops.len();
                 let got = run_op(&ops[i], &key, &subject, &issuer);
                 let want = &reference[i];
